@@ -1178,6 +1178,7 @@ fn base(callers: Vec<CallerCfg>, mif: usize, buf: usize, fl: Flavour, cap: usize
         alphabet,
         fault: None,
         keep_root: false,
+        start_age_ms: 0,
     }
 }
 
@@ -1364,6 +1365,26 @@ pub fn configs(prop: CProp, tier: Tier) -> Vec<CCfg> {
                                     ],
                                     mif, 1, *fl, *cap, alpha,
                                 ));
+                            }
+                            // the connection has been open and idle for two days / 800 days
+                            // before the first call (the timer queue of an idle connection is
+                            // renewed; seeded change C05d capped the first timer after an idle
+                            // period by the old queue's age)
+                            if *d0 >= 0 && *d0 <= 10_000 && d1 == 50 {
+                                for age_days in [2i64, 800] {
+                                    let age = age_days * 86_400_000;
+                                    for ans in [false, true] {
+                                        let mut c = base(
+                                            vec![
+                                                CallerCfg { deadline_ms: age + *d0, ..CallerCfg::simple(ans) },
+                                                CallerCfg { deadline_ms: age + 729 * 86_400_000, ..CallerCfg::simple(true) },
+                                            ],
+                                            mif, 1, *fl, *cap, alpha,
+                                        );
+                                        c.start_age_ms = age;
+                                        out.push(c);
+                                    }
+                                }
                             }
                             // one of the two is abandoned after its request went out, the other
                             // waits for its own deadline
